@@ -19,7 +19,7 @@ use crate::check::context::function::python::GET_ITEM;
 use crate::check::context::{arg, function, Context, LookupClass, LookupFunction};
 use crate::check::ident::{IdentiCall, Identifier};
 use crate::check::name::string_name::StringName;
-use crate::check::name::{Empty, Name};
+use crate::check::name::{Empty, Name, Nullable};
 use crate::check::result::{TypeErr, TypeResult};
 use crate::common::position::Position;
 use crate::parse::ast::node_op::NodeOp;
@@ -182,6 +182,11 @@ fn call_parameters(
 
                 let arg_exp = Expected::new(*pos, arg);
                 let name = Name::from(&ctx.class(ty, *pos)?);
+                let name = if ty.is_nullable() {
+                    name.as_nullable() // class lookup does not preserve this
+                } else {
+                    name
+                };
                 constr.add(
                     "call parameters",
                     &Expected::new(*pos, &Type { name }),
